@@ -381,12 +381,19 @@ def splitLoop (d : KDesc (DPK X P)) : List Nat → Except SplitErr (List (KDesc 
       | .error e => .error e
       | .ok rest => .ok (di :: rest)
 
+/-- the predicate of the arity check: a multipath key whose number of alternatives is not `n` -/
+def arityNe (n : Nat) : DPK X P → Bool
+  | .multi _ _ paths _ => paths.length != n
+  | _ => false
+
 /-- `Descriptor::into_single_descriptors`: the number of clones is the number of paths of the
-FIRST multipath key in `for_each_key` order -/
+first multipath key in `for_each_key` order; every multipath key must have exactly that many
+alternatives (`MultipathDescLenMismatch` otherwise) -/
 def KDesc.intoSingleDescriptors (d : KDesc (DPK X P)) : Except SplitErr (List (KDesc (DPK X P))) :=
   match d.keysPre.find? DPK.isMultipath with
   | some (.multi _ _ paths _) =>
     if paths.isEmpty then .error .panicEmpty      -- `assert!(!descriptors.is_empty())`
+    else if d.keysPre.any (arityNe paths.length) then .error .lenMismatch
     else splitLoop d (List.range paths.length)
   | _ => .ok [d]
 
